@@ -652,6 +652,16 @@ class VAMTransmissionManagement:
         vam_to_send.fullfill_with_tpv_data(tpv)
         self.logging.debug("Fullfilled VAM with TPV data %s", tpv)
 
+        if self.clustering_manager is not None:
+            # Advance the time-driven clustering transitions (leader lost, notification periods);
+            # nothing else does, and a passive station would otherwise stay silent for good.
+            self.clustering_manager.update(
+                tpv.get("lat", 0.0),
+                tpv.get("lon", 0.0),
+                tpv.get("speed", 0.0),
+                tpv.get("track", 0.0),
+            )
+
         # Suppress individual VAMs when passive (clustering state machine).
         if (
             self.clustering_manager is not None
